@@ -21,11 +21,15 @@ type SimPD struct {
 	getCalls  int
 	addCalls  int
 	got       [][]byte
+	kept      [][]byte
 	gotHash   [][32]byte
 	fired     map[string]int
 	getFailed map[int]bool
 	addErrd   bool
 	addAfter  int
+	served    map[int][]byte
+	infoSeen  *imagetypes.FrameInfo
+	noInfo    bool
 }
 
 var errSimIO = errors.New("simulated I/O error")
@@ -41,7 +45,7 @@ func infoFromSpec(in spec.Info) *imagetypes.FrameInfo {
 
 func newSimPD(in spec.Info, frames [][]byte, faults []spec.Fault, encaps bool) *SimPD {
 	return &SimPD{info: infoFromSpec(in), frames: frames, faults: faults, encaps: encaps,
-		fired: map[string]int{}, getFailed: map[int]bool{}}
+		fired: map[string]int{}, getFailed: map[int]bool{}, served: map[int][]byte{}}
 }
 
 func (p *SimPD) fire(kind string) { p.fired[kind]++ }
@@ -71,6 +75,7 @@ func (p *SimPD) GetFrame(k int) ([]byte, error) {
 			p.fire(f.Kind)
 			out := make([]byte, len(fr)-n)
 			copy(out, fr)
+			p.served[k] = append([]byte{}, out...)
 			return out, nil
 		case "long":
 			p.fire(f.Kind)
@@ -82,16 +87,33 @@ func (p *SimPD) GetFrame(k int) ([]byte, error) {
 			if f.N == 1 {
 				out[len(fr)] = 0 // DICOM even-length padding
 			}
+			p.served[k] = append([]byte{}, out...)
 			return out, nil
 		case "empty":
 			p.fire(f.Kind)
+			p.served[k] = []byte{}
 			return []byte{}, nil
 		case "nil":
 			p.fire(f.Kind)
+			p.served[k] = []byte{}
 			return nil, nil
 		}
 	}
+	p.served[k] = append([]byte(nil), fr...) // snapshot: the library may (wrongly) write into fr
 	return fr, nil
+}
+
+// servedFrames returns the frames as the library saw them.
+func (p *SimPD) servedFrames() [][]byte {
+	out := make([][]byte, len(p.frames))
+	for i := range p.frames {
+		if s, ok := p.served[i]; ok {
+			out[i] = s
+		} else {
+			out[i] = p.frames[i]
+		}
+	}
+	return out
 }
 
 func (p *SimPD) AddFrame(b []byte) error {
@@ -108,10 +130,10 @@ func (p *SimPD) AddFrame(b []byte) error {
 		}
 	}
 	if p.retains {
-		p.got = append(p.got, b)
+		// keep the very slice (re-hashed at the end of the run) and a snapshot
+		p.kept = append(p.kept, b)
 		p.gotHash = append(p.gotHash, sha256.Sum256(b))
 		p.fire("sink-retains")
-		return nil
 	}
 	c := make([]byte, len(b))
 	copy(c, b)
@@ -138,6 +160,7 @@ func (p *SimPD) GetFrameInfo() *imagetypes.FrameInfo {
 		switch f.Kind {
 		case "noinfo":
 			p.fire(f.Kind)
+			p.noInfo = true
 			return nil
 		case "info-corrupt":
 			p.fire(f.Kind)
@@ -160,6 +183,7 @@ func (p *SimPD) GetFrameInfo() *imagetypes.FrameInfo {
 			case "PlanarConfiguration":
 				c.PlanarConfiguration = uint16(f.N)
 			}
+			p.infoSeen = &c
 			return &c
 		}
 	}
@@ -170,7 +194,7 @@ func (p *SimPD) IsEncapsulated() bool { return p.encaps }
 
 // retainedIntact re-hashes every retained slice.
 func (p *SimPD) retainedIntact() bool {
-	for i, b := range p.got {
+	for i, b := range p.kept {
 		if i < len(p.gotHash) && sha256.Sum256(b) != p.gotHash[i] {
 			return false
 		}
